@@ -700,32 +700,61 @@ def g5iv_column_reader(prog):
     if f is None:
         r.viol('G5iv', 'missing', '-', 'DeserializeColumnVisitor::visit_seq not found')
         return r
-    body = f.body
-    loops = loop_exit_edge(body)
-    r.inst('DeserializeColumnVisitor::visit_seq: %d loop(s)' % len(loops))
-    if len(loops) != 1:
-        r.viol('G5iv', 'loop', f.loc(), 'expected one loop over 0..length')
+    E = pathsem.analyse(prog, f, max_visits=3)
+    rets = [p for p in E.paths if p.ended == 'return']
+    r.inst('DeserializeColumnVisitor::visit_seq: %d returning paths' % len(rets))
+    rep = set()
+
+    def once(k, ln, msg):
+        if k not in rep:
+            rep.add(k)
+            r.viol('G5iv', k, f.loc(ln), msg)
+    if E.truncated or not rets:
+        once('loop', None, 'column reader not analysable')
         return r
-    nb, sb, exit_t, body_t = loops[0]
-    pushes = [(b, t) for b, t in body.calls(lambda c: c['name'] == 'push' and c['path'].startswith('alloc::vec'))]
-    if len(pushes) != 1 or not body.edge_dominates((sb, body_t), pushes[0][0]):
-        r.viol('G5iv', 'push-per-iteration', f.loc(), 'each iteration must push exactly one element')
-    mds = [(b, t) for b, t in body.calls(lambda c: c['path'] == 'core::mem::ManuallyDrop::<T>::new')]
-    for b, t in mds:
-        if not body.edge_dominates((sb, exit_t), b):
-            r.viol('G5iv', 'manually-drop-before-fill', f.loc(t['ln']), 'the column Vec is wrapped in ManuallyDrop before it is completely filled: elements read before a failing `?` are leaked')
-    # error exits inside the loop drop the Vec
-    vec_locals = [i for i, l in enumerate(body.locals) if is_adt(l['ty'], 'alloc::vec::Vec')]
-    errs = [b for b in range(body.n) if body.term(b)['k'] == 'call' and body.term(b)['f'].get('name') == 'from_residual']
-    r.inst('DeserializeColumnVisitor::visit_seq: %d error exits' % len(errs))
-    for eb in errs:
-        if not body.edge_dominates((sb, body_t), eb):
+    S = pathsem.strip_refs
+    n_err = n_ok = 0
+    for p in E.paths:
+        if p.ended not in ('return', 'cutoff'):
             continue
-        reach = body.reachable(eb)
-        drops = [b for b in reach if body.term(b)['k'] == 'drop' and is_adt(body.term(b)['ty'], 'alloc::vec::Vec')]
-        if not drops:
-            r.viol('G5iv', 'partial-column-leaked', f.loc(body.term(eb)['ln']), 'an error exit inside the fill loop does not drop the partially filled column')
-    # loop bound is the declared length
+        its = [(a_, v, at) for (a_, v), at in zip(p.conds, p.conds.at) if isinstance(a_, tuple) and a_[0] == 'next']
+        rngs = [a_ for a_, v, at in its if pathsem.mentions(a_[1], lambda t: t[0] == 'agg' and t[1].startswith('core::ops::Range'))]
+        pushes = p.calls(lambda e: e['name'] == 'push' and e['path'].startswith('alloc::vec'))
+        reads = p.calls(lambda e: e['name'] in ('next_element', 'next_element_seed'))
+        mds = p.calls(lambda e: e['path'] == 'core::mem::ManuallyDrop::<T>::new' or e['name'] == 'forget')
+        is_err = isinstance(p.ret, tuple) and p.ret[0] == 'agg' and p.ret[2] == 'Err'
+        is_ok = isinstance(p.ret, tuple) and p.ret[0] == 'agg' and p.ret[2] == 'Ok'
+        done_iters = len([1 for a_, v, at in its if v == 1]) - (1 if (is_err and reads) else 0)
+        if p.ended == 'return' and len(pushes) != max(done_iters, 0) and not p.ended == 'cutoff':
+            once('push-per-iteration', pushes[0]['ln'] if pushes else None, 'each iteration must push exactly one element (%d completed iterations, %d pushes)' % (done_iters, len(pushes)))
+        for m in mds:
+            later = [e for e in reads if e['i'] > m['i']]
+            if later:
+                once('manually-drop-before-fill', m['ln'], 'the column Vec is wrapped in ManuallyDrop before it is completely filled: elements read before a failing `?` are leaked')
+        if p.ended != 'return':
+            continue
+        if is_err:
+            n_err += 1
+            vecs = [e['ret'] for e in p.calls(lambda e: e['name'] in ('with_capacity', 'new') and e['path'].startswith('alloc::vec'))]
+            if vecs:
+                if mds:
+                    once('manually-drop-before-fill', mds[0]['ln'], 'the column Vec is wrapped in ManuallyDrop before it is completely filled: elements read before a failing `?` are leaked')
+                elif not any(d['k'] == 'drop' and S(d['value']) in vecs for d in p.events):
+                    once('partial-column-leaked', None, 'an error exit inside the fill loop does not drop the partially filled column')
+        elif is_ok:
+            n_ok += 1
+            ended = [1 for a_, v, at in its if v == 0]
+            if not ended or not rngs:
+                once('loop', None, 'the column is handed out without the loop over 0..length having run to its end')
+            for a_ in rngs[:1]:
+                rng = [t for t in pathsem.subterms(a_[1]) if t[0] == 'agg' and t[1].startswith('core::ops::Range')][0]
+                if rng[4][0] != ('c', 0) or not pathsem.is_field_of(rng[4][1], 'DeserializeColumn', adt_field_index(prog, 'archetype::impl_serde::DeserializeColumn', 'length')):
+                    once('loop-bound', None, 'the fill loop does not run over 0..length (the declared column length)')
+            if not mds:
+                once('not-handed-out', None, 'the filled column is dropped instead of being handed out as raw parts')
+    r.inst('DeserializeColumnVisitor::visit_seq: %d error exits' % n_err)
+    if not n_err or not n_ok:
+        once('loop', None, 'expected both error exits and a successful exit (found %d / %d)' % (n_err, n_ok))
     return r
 
 
